@@ -211,3 +211,246 @@ pub fn thm_c01_honest_run<CS: CipherSuite, R: RngCore + CryptoRng>(
     let server = match sl.state.finish(login.message.clone()) { Ok(v) => v, Err(e) => return Err(e) };
     Ok(C01Out { reg_export_key, reg_server_pk, setup_pk: setup.keypair.public().clone(), login, server })
 }
+
+// ------------------------------------------------------------------------------------------------ idealisation hypotheses (never axioms)
+/// collision-freedom of the suite's primitives, used only as explicit `requires` of theorems (DESIGN.md 2.7)
+pub open spec fn cf_hash<D: Hash>() -> bool { forall|a: Seq<u8>, b: Seq<u8>| #[trigger] D::h(a) == #[trigger] D::h(b) ==> a == b }
+pub open spec fn cf_hmac<D: Hash>() -> bool {
+    forall|k1: Seq<u8>, m1: Seq<u8>, k2: Seq<u8>, m2: Seq<u8>| #[trigger] D::hmac(k1, m1) == #[trigger] D::hmac(k2, m2) ==> k1 == k2 && m1 == m2
+}
+pub open spec fn cf_extract<D: Hash>() -> bool {
+    forall|s1: Seq<u8>, i1: Seq<u8>, s2: Seq<u8>, i2: Seq<u8>| #[trigger] D::extract(s1, i1) == #[trigger] D::extract(s2, i2) ==> s1 == s2 && i1 == i2
+}
+pub open spec fn cf_expand<D: Hash>() -> bool {
+    forall|p1: Seq<u8>, i1: Seq<u8>, p2: Seq<u8>, i2: Seq<u8>, n: nat| n >= 32 && #[trigger] D::expand(p1, i1, n) == #[trigger] D::expand(p2, i2, n) ==> p1 == p2 && i1 == i2
+}
+
+// ------------------------------------------------------------------------------------------------ framing is injective (proved)
+pub proof fn lemma_i2osp2_inj(n: nat, m: nat)
+    requires n <= 65535, m <= 65535, i2osp(n, 2) == i2osp(m, 2)
+    ensures n == m
+{
+    lemma_i2osp2(n); lemma_i2osp2(m);
+    assert(i2osp(n, 2)[0] == i2osp(m, 2)[0]);
+    assert(i2osp(n, 2)[1] == i2osp(m, 2)[1]);
+    assert(n == (n / 256) * 256 + n % 256) by (nonlinear_arith);
+    assert(m == (m / 256) * 256 + m % 256) by (nonlinear_arith);
+    assert(n / 256 <= 255) by (nonlinear_arith) requires n <= 65535;
+    assert(m / 256 <= 255) by (nonlinear_arith) requires m <= 65535;
+}
+/// a 2-byte-length-prefixed field followed by anything determines the field and the rest: bytes cannot move across the boundary
+pub proof fn lemma_frame_split(a: Seq<u8>, x: Seq<u8>, b: Seq<u8>, y: Seq<u8>)
+    requires a.len() <= 65535, b.len() <= 65535, frame2(a) + x == frame2(b) + y
+    ensures a == b, x == y
+{
+    lemma_i2osp2(a.len()); lemma_i2osp2(b.len());
+    let l = frame2(a) + x;
+    let r = frame2(b) + y;
+    assert(l[0] == i2osp(a.len(), 2)[0] && l[1] == i2osp(a.len(), 2)[1]);
+    assert(r[0] == i2osp(b.len(), 2)[0] && r[1] == i2osp(b.len(), 2)[1]);
+    assert(i2osp(a.len(), 2) =~= i2osp(b.len(), 2));
+    lemma_i2osp2_inj(a.len(), b.len());
+    assert(a =~= l.subrange(2, 2 + a.len() as int));
+    assert(b =~= r.subrange(2, 2 + b.len() as int));
+    assert(x =~= l.subrange(2 + a.len() as int, l.len() as int));
+    assert(y =~= r.subrange(2 + b.len() as int, r.len() as int));
+}
+pub proof fn lemma_fixed_split(a: Seq<u8>, x: Seq<u8>, b: Seq<u8>, y: Seq<u8>)
+    requires a.len() == b.len(), a + x == b + y
+    ensures a == b, x == y
+{
+    let l = a + x; let r = b + y;
+    assert(a =~= l.subrange(0, a.len() as int));
+    assert(b =~= r.subrange(0, b.len() as int));
+    assert(x =~= l.subrange(a.len() as int, l.len() as int));
+    assert(y =~= r.subrange(b.len() as int, r.len() as int));
+}
+/// CleartextCredentials are injective in (server key, server identity, client identity)
+pub proof fn lemma_cleartext_injective(pk: Seq<u8>, ids: Seq<u8>, idu: Seq<u8>, pk2: Seq<u8>, ids2: Seq<u8>, idu2: Seq<u8>)
+    requires pk.len() == pk2.len(), ids.len() <= 65535, idu.len() <= 65535, ids2.len() <= 65535, idu2.len() <= 65535,
+             rfc_cleartext_credentials(pk, ids, idu) == rfc_cleartext_credentials(pk2, ids2, idu2)
+    ensures pk == pk2, ids == ids2, idu == idu2
+{
+    broadcast use seq_norm;
+    lemma_fixed_split(pk, frame2(ids) + frame2(idu), pk2, frame2(ids2) + frame2(idu2));
+    lemma_frame_split(ids, frame2(idu), ids2, frame2(idu2));
+    lemma_frame_split(idu, Seq::empty(), idu2, Seq::empty());
+}
+/// the 3DH preamble is injective in every one of its fields (variable fields are length-prefixed, the others have suite-fixed lengths)
+pub proof fn lemma_preamble_injective(
+    c1: Seq<u8>, u1: Seq<u8>, k1: Seq<u8>, s1: Seq<u8>, l1: Seq<u8>, n1: Seq<u8>, e1: Seq<u8>,
+    c2: Seq<u8>, u2: Seq<u8>, k2: Seq<u8>, s2: Seq<u8>, l2: Seq<u8>, n2: Seq<u8>, e2: Seq<u8>)
+    requires
+        c1.len() <= 65535, c2.len() <= 65535, u1.len() <= 65535, u2.len() <= 65535, s1.len() <= 65535, s2.len() <= 65535,
+        k1.len() == k2.len(), l1.len() == l2.len(), n1.len() == n2.len(),
+        rfc_preamble(c1, u1, k1, s1, l1, n1, e1) == rfc_preamble(c2, u2, k2, s2, l2, n2, e2),
+    ensures c1 == c2, u1 == u2, k1 == k2, s1 == s2, l1 == l2, n1 == n2, e1 == e2
+{
+    broadcast use seq_norm;
+    let t1 = frame2(c1) + (frame2(u1) + (k1 + (frame2(s1) + (l1 + (n1 + e1)))));
+    let t2 = frame2(c2) + (frame2(u2) + (k2 + (frame2(s2) + (l2 + (n2 + e2)))));
+    assert(rfc_preamble(c1, u1, k1, s1, l1, n1, e1) == s_opaquev1() + t1);
+    assert(rfc_preamble(c2, u2, k2, s2, l2, n2, e2) == s_opaquev1() + t2);
+    lemma_fixed_split(s_opaquev1(), t1, s_opaquev1(), t2);
+    lemma_frame_split(c1, frame2(u1) + (k1 + (frame2(s1) + (l1 + (n1 + e1)))), c2, frame2(u2) + (k2 + (frame2(s2) + (l2 + (n2 + e2)))));
+    lemma_frame_split(u1, k1 + (frame2(s1) + (l1 + (n1 + e1))), u2, k2 + (frame2(s2) + (l2 + (n2 + e2))));
+    lemma_fixed_split(k1, frame2(s1) + (l1 + (n1 + e1)), k2, frame2(s2) + (l2 + (n2 + e2)));
+    lemma_frame_split(s1, l1 + (n1 + e1), s2, l2 + (n2 + e2));
+    lemma_fixed_split(l1, n1 + e1, l2, n2 + e2);
+    lemma_fixed_split(n1, e1, n2, e2);
+}
+
+// ------------------------------------------------------------------------------------------------ settings shared by C02 / C04 / C05 / C06 / C07
+/// a password file produced by an honest registration with randomized password `rp`, server key bytes `spk` and identities `ids`
+pub open spec fn registered<CS: CipherSuite>(rec: RegistrationUpload<CS>, rp: Seq<u8>, spk: Seq<u8>, ids: Identifiers) -> bool {
+    &&& rec.masking_key@ == rfc_masking_key::<CS>(rp)
+    &&& rfc_client_sk::<CS>(rp, rec.envelope.nonce@) is Ok
+    &&& rec.envelope.hmac@ == rfc_envelope_tag::<CS>(rp, rec.envelope.nonce@, spk, ids)
+    &&& rec.client_s_pk.0 == <CS::KeGroup as KeGroup>::pk_of(rfc_client_sk::<CS>(rp, rec.envelope.nonce@)->Ok_0)
+}
+/// a credential response whose masked part was produced by a server holding record `rec` and static key bytes `spk`
+pub open spec fn masked_by<CS: CipherSuite>(resp: CredentialResponse<CS>, rec: RegistrationUpload<CS>, spk: Seq<u8>) -> bool {
+    masked_ser(resp.masked_response) == xor(rfc_pad::<CS>(rec.masking_key@, resp.masking_nonce@), spk + rec.envelope.nonce@ + rec.envelope.hmac@)
+}
+
+// ------------------------------------------------------------------------------------------------ C02
+/// the randomized password is an injective function of the password (for a fixed OPRF key and KSF), given collision-freedom of
+/// Hash and Extract: the password sits length-prefixed in the Finalize hash input, so prefixes / extensions / empty-vs-non-empty differ
+pub proof fn lemma_c02_rp_differs<CS: CipherSuite>(pw1: Seq<u8>, e1: <OprfGroup<CS> as Group>::Elem, st1: Seq<u8>, pw2: Seq<u8>, e2: <OprfGroup<CS> as Group>::Elem, st2: Seq<u8>)
+    requires
+        cf_hash::<OprfHash<CS>>(), cf_extract::<OprfHash<CS>>(),
+        pw1 != pw2, pw1.len() <= 65535, pw2.len() <= 65535,
+    ensures ({
+        let y1 = <OprfHash<CS> as Digest>::h(voprf::finalize_input::<CS::OprfCs>(pw1, e1));
+        let y2 = <OprfHash<CS> as Digest>::h(voprf::finalize_input::<CS::OprfCs>(pw2, e2));
+        y1 != y2 && rfc_randomized_pwd::<CS>(y1, st1) != rfc_randomized_pwd::<CS>(y2, st2)
+    })
+{
+    broadcast use seq_norm;
+    let i1 = voprf::finalize_input::<CS::OprfCs>(pw1, e1);
+    let i2 = voprf::finalize_input::<CS::OprfCs>(pw2, e2);
+    lemma_i2osp2(pw1.len()); lemma_i2osp2(pw2.len());
+    assert(voprf::i2osp2(pw1.len()) == i2osp(pw1.len(), 2));
+    assert(voprf::i2osp2(pw2.len()) == i2osp(pw2.len(), 2));
+    let t1 = voprf::i2osp2(<OprfGroup<CS> as Group>::ElemLen::n()) + <OprfGroup<CS> as Group>::ser_elem(e1) + voprf::str_finalize();
+    let t2 = voprf::i2osp2(<OprfGroup<CS> as Group>::ElemLen::n()) + <OprfGroup<CS> as Group>::ser_elem(e2) + voprf::str_finalize();
+    assert(i1 == frame2(pw1) + t1);
+    assert(i2 == frame2(pw2) + t2);
+    if i1 == i2 { lemma_frame_split(pw1, t1, pw2, t2); }
+    let y1 = <OprfHash<CS> as Digest>::h(i1);
+    let y2 = <OprfHash<CS> as Digest>::h(i2);
+    assert(y1 != y2);
+    <OprfHash<CS> as Digest>::lemma_h_len(i1);
+    <OprfHash<CS> as Digest>::lemma_h_len(i2);
+    if y1 + st1 == y2 + st2 { lemma_fixed_split(y1, st1, y2, st2); }
+}
+/// the one cryptographic step that is not a property of a single call: decrypting the masked credentials with the pad of a DIFFERENT
+/// randomized password never yields bytes that carry a valid envelope tag under that different password (random-oracle argument; named assumption)
+pub open spec fn h_env_fresh<CS: CipherSuite>(rp_reg: Seq<u8>, rp_login: Seq<u8>, mnonce: Seq<u8>, x: Seq<u8>, ids: Identifiers) -> bool {
+    let u = xor(rfc_pad::<CS>(rfc_masking_key::<CS>(rp_login), mnonce), xor(rfc_pad::<CS>(rfc_masking_key::<CS>(rp_reg), mnonce), x));
+    let pk = u.subrange(0, npk::<CS>() as int);
+    let nonce = u.subrange(npk::<CS>() as int, npk::<CS>() as int + 32);
+    let tag = u.subrange(npk::<CS>() as int + 32, npk::<CS>() as int + 32 + nh::<CS>() as int);
+    forall|pk_dec: <CS::KeGroup as KeGroup>::Pk| tag != #[trigger] rfc_envelope_tag::<CS>(rp_login, nonce, <CS::KeGroup as KeGroup>::ser_pk(pk_dec), ids)
+}
+/// C02 (envelope alternative): a client whose randomized password differs from the registered one cannot pass the envelope gate
+pub proof fn thm_c02_reject_env<CS: CipherSuite>(st: ClientLogin<CS>, pw2: Seq<u8>, resp: CredentialResponse<CS>, p: ClientLoginFinishParameters<CS>,
+        rec: RegistrationUpload<CS>, rp: Seq<u8>, spk: Seq<u8>, ids_reg: Identifiers)
+    requires
+        registered::<CS>(rec, rp, spk, ids_reg), masked_by::<CS>(resp, rec, spk),
+        cl_rp::<CS>(st, pw2, resp, p) != rp,
+        h_env_fresh::<CS>(rp, cl_rp::<CS>(st, pw2, resp, p), resp.masking_nonce@, spk + rec.envelope.nonce@ + rec.envelope.hmac@, p.identifiers),
+    ensures
+        !cl_env_ok::<CS>(st, pw2, resp, p),
+        !cl_accepts::<CS>(st, pw2, resp, p),
+        //@vacuity
+{
+}
+/// C02 (server-MAC alternative): the server's MAC was computed over DH values of the REGISTERED client key; a client that derived a
+/// different randomized password holds different key material, and (named assumption) the honest MAC does not verify under it
+pub open spec fn h_mac_fresh<CS: CipherSuite>(st: ClientLogin<CS>, pw2: Seq<u8>, resp: CredentialResponse<CS>, p: ClientLoginFinishParameters<CS>) -> bool {
+    resp.ke2_message.mac@ != rfc_server_mac::<OprfHash<CS>>(cl_prk::<CS>(st, pw2, resp, p), cl_preamble::<CS>(st, pw2, resp, p))
+}
+pub proof fn thm_c02_reject_mac<CS: CipherSuite>(st: ClientLogin<CS>, pw2: Seq<u8>, resp: CredentialResponse<CS>, p: ClientLoginFinishParameters<CS>)
+    requires h_mac_fresh::<CS>(st, pw2, resp, p),
+    ensures !cl_mac_ok::<CS>(st, pw2, resp, p), !cl_accepts::<CS>(st, pw2, resp, p),
+        //@vacuity
+{
+}
+/// C02 on the real function: whenever the envelope gate (resp. the server-MAC gate) is false, the finish step returns the invalid-login
+/// error (given encodable lengths and a successful key derivation) and — by its result type — no key, no export key, no finalization message
+pub fn thm_c02_real_env<CS: CipherSuite>(st: ClientLogin<CS>, pw2: &[u8], resp: CredentialResponse<CS>, p: ClientLoginFinishParameters<CS>) -> (r: Result<ClientLoginFinishResult<CS>, ProtocolError>)
+    requires
+        !cl_env_ok::<CS>(st, pw2@, resp, p),
+        st.credential_request.blinded_element.v() != resp.evaluation_element.v(),
+        rp_of::<CS>(pw2@, st.oprf_client.blind_of(), resp.evaluation_element.v(), p.ksf) is Ok,
+        cl_ctx_fit(p.context), ids_fit(p.identifiers),
+        cl_server_pk::<CS>(st, pw2@, resp, p) is Some ==> rfc_client_sk::<CS>(cl_rp::<CS>(st, pw2@, resp, p), cl_env_nonce::<CS>(st, pw2@, resp, p)) is Ok,
+    ensures
+        r is Err, r->Err_0 == ProtocolError::<Infallible>::InvalidLoginError,
+        //@vacuity
+{
+    st.finish(pw2, resp, p)
+}
+pub fn thm_c02_real_mac<CS: CipherSuite>(st: ClientLogin<CS>, pw2: &[u8], resp: CredentialResponse<CS>, p: ClientLoginFinishParameters<CS>) -> (r: Result<ClientLoginFinishResult<CS>, ProtocolError>)
+    requires
+        !cl_mac_ok::<CS>(st, pw2@, resp, p),
+        st.credential_request.blinded_element.v() != resp.evaluation_element.v(),
+        rp_of::<CS>(pw2@, st.oprf_client.blind_of(), resp.evaluation_element.v(), p.ksf) is Ok,
+        cl_ctx_fit(p.context), ids_fit(p.identifiers),
+        cl_server_pk::<CS>(st, pw2@, resp, p) is Some ==> rfc_client_sk::<CS>(cl_rp::<CS>(st, pw2@, resp, p), cl_env_nonce::<CS>(st, pw2@, resp, p)) is Ok,
+    ensures
+        r is Err, r->Err_0 == ProtocolError::<Infallible>::InvalidLoginError,
+        //@vacuity
+{
+    st.finish(pw2, resp, p)
+}
+
+// ------------------------------------------------------------------------------------------------ transcript agreement (C04 / C05 / C07)
+/// If the MAC in a response the client ACCEPTED is a server MAC computed over some transcript (ctx, id_u, ke1, id_s, l2, nonce, epk),
+/// then — given collision-freedom of HMAC and Hash — that transcript is exactly the client's: same context, same effective identities,
+/// same request bytes, same credential-response bytes, same server nonce and ephemeral key; and both sides hold the same key-schedule input.
+pub proof fn thm_transcript_agreement<CS: CipherSuite>(st: ClientLogin<CS>, pw: Seq<u8>, resp: CredentialResponse<CS>, p: ClientLoginFinishParameters<CS>,
+        prk_s: Seq<u8>, ctx: Seq<u8>, idu: Seq<u8>, ke1: Seq<u8>, ids: Seq<u8>, l2: Seq<u8>, ns: Seq<u8>, epk: Seq<u8>)
+    requires
+        cf_hash::<OprfHash<CS>>(), cf_hmac::<OprfHash<CS>>(),
+        cl_mac_ok::<CS>(st, pw, resp, p),
+        resp.ke2_message.mac@ == rfc_server_mac::<OprfHash<CS>>(prk_s, rfc_preamble(ctx, idu, ke1, ids, l2, ns, epk)),
+        ctx.len() <= 65535, idu.len() <= 65535, ids.len() <= 65535, ids_fit(p.identifiers),
+        ke1.len() == noe::<CS>() + 32 + npk::<CS>(), l2.len() == noe::<CS>() + 32 + (32 + nh::<CS>() + npk::<CS>()), ns.len() == 32,
+    ensures
+        cl_preamble::<CS>(st, pw, resp, p) == rfc_preamble(ctx, idu, ke1, ids, l2, ns, epk),
+        ctx_of(p.context) == ctx,
+        eff_id(p.identifiers.client, <CS::KeGroup as KeGroup>::ser_pk(<CS::KeGroup as KeGroup>::pk_of(cl_client_sk::<CS>(st, pw, resp, p)))) == idu,
+        eff_id(p.identifiers.server, <CS::KeGroup as KeGroup>::ser_pk(cl_server_pk::<CS>(st, pw, resp, p)->0)) == ids,
+        <OprfGroup<CS> as Group>::ser_elem(st.credential_request.blinded_element.v()) + st.credential_request.ke1_message.client_nonce@
+            + <CS::KeGroup as KeGroup>::ser_pk(st.credential_request.ke1_message.client_e_pk.0) == ke1,
+        <OprfGroup<CS> as Group>::ser_elem(resp.evaluation_element.v()) + resp.masking_nonce@ + masked_ser(resp.masked_response) == l2,
+        resp.ke2_message.server_nonce@ == ns,
+        <CS::KeGroup as KeGroup>::ser_pk(resp.ke2_message.server_e_pk.0) == epk,
+        rfc_km2::<OprfHash<CS>>(cl_prk::<CS>(st, pw, resp, p), <OprfHash<CS> as Digest>::h(cl_preamble::<CS>(st, pw, resp, p)))
+            == rfc_km2::<OprfHash<CS>>(prk_s, <OprfHash<CS> as Digest>::h(cl_preamble::<CS>(st, pw, resp, p))),
+        //@vacuity
+{
+    broadcast use ga_axioms;
+    lemma_lens::<CS>();
+    let pre_c = cl_preamble::<CS>(st, pw, resp, p);
+    let pre_s = rfc_preamble(ctx, idu, ke1, ids, l2, ns, epk);
+    // HMAC collision-freedom: same key and same hashed transcript; Hash collision-freedom: same transcript
+    assert(<OprfHash<CS> as Digest>::h(pre_c) == <OprfHash<CS> as Digest>::h(pre_s));
+    assert(pre_c == pre_s);
+    let spk_bytes = <CS::KeGroup as KeGroup>::ser_pk(cl_server_pk::<CS>(st, pw, resp, p)->0);
+    let cpk_bytes = <CS::KeGroup as KeGroup>::ser_pk(<CS::KeGroup as KeGroup>::pk_of(cl_client_sk::<CS>(st, pw, resp, p)));
+    let creq = <OprfGroup<CS> as Group>::ser_elem(st.credential_request.blinded_element.v()) + st.credential_request.ke1_message.client_nonce@
+        + <CS::KeGroup as KeGroup>::ser_pk(st.credential_request.ke1_message.client_e_pk.0);
+    let l2c = <OprfGroup<CS> as Group>::ser_elem(resp.evaluation_element.v()) + resp.masking_nonce@ + masked_ser(resp.masked_response);
+    <OprfGroup<CS> as Group>::lemma_ser_elem_len(st.credential_request.blinded_element.v());
+    <OprfGroup<CS> as Group>::lemma_ser_elem_len(resp.evaluation_element.v());
+    <CS::KeGroup as KeGroup>::lemma_ser_pk_len(st.credential_request.ke1_message.client_e_pk.0);
+    <CS::KeGroup as KeGroup>::lemma_ser_pk_len(cl_server_pk::<CS>(st, pw, resp, p)->0);
+    <CS::KeGroup as KeGroup>::lemma_ser_pk_len(<CS::KeGroup as KeGroup>::pk_of(cl_client_sk::<CS>(st, pw, resp, p)));
+    let idu_c = eff_id(p.identifiers.client, cpk_bytes);
+    let ids_c = eff_id(p.identifiers.server, spk_bytes);
+    lemma_preamble_injective(ctx_of(p.context), idu_c, creq, ids_c, l2c, resp.ke2_message.server_nonce@, <CS::KeGroup as KeGroup>::ser_pk(resp.ke2_message.server_e_pk.0),
+        ctx, idu, ke1, ids, l2, ns, epk);
+}
